@@ -377,6 +377,45 @@ pub fn run(opts: &Opts) -> Report {
             record(&mut rep, opts, "exhaustive", c, &ops, res);
         }
     }
+    if want("marathon") && opts.shard == 0 {
+        // 2^32 insertions into one indexed queue (thorough tier only, one
+        // process, several minutes): the insertion epoch must keep ordering
+        // equal keys and identifying entries beyond 32 bits.
+        let n: u64 = if cfg!(miri) { 1000 } else { (1u64 << 32) - 1 };
+        let mut q: IndexedPq<u32, u64> = IndexedPq::new();
+        let mut stale = None;
+        for i in 0..n {
+            let k = q.insert(0, i);
+            if i == 5 {
+                stale = Some(k.into_raw_parts());
+                let _ = q.pull();
+            } else {
+                let _ = q.pull();
+            }
+            if i % (1 << 26) == 0 {
+                crate::rec::progress();
+            }
+        }
+        rep.evaluations += 1;
+        rep.count("marathon_insertions", n);
+        let _ka = q.insert(7, 1);
+        let _kb = q.insert(7, 2);
+        let _kc = q.insert(7, 3);
+        let order: Vec<u64> = std::iter::from_fn(|| q.pull().map(|e| e.1)).collect();
+        if order != vec![1, 2, 3] {
+            rep.violation("C20/equal-keys-not-fifo-after-many-insertions", format!("after {} insertions, three entries inserted with the same key in the order 1, 2, 3 were pulled as {:?}", n, order), opts.replay_args("marathon", 0));
+        }
+        if let Some((slot, epoch)) = stale {
+            // The slot of the stale key has been reused billions of times since.
+            let _live = q.insert(9, 99);
+            let got = q.extract(PqKey::from_raw_parts(slot, epoch));
+            if got.is_some() {
+                rep.violation("C20/stale-key-extracted-an-entry", format!("after {} insertions a key issued for insertion number 5 extracted {:?}", n, got), opts.replay_args("marathon", 0));
+            }
+        }
+        rep.distinct.insert(0xC20_3A7A);
+        rep.distinct.insert(0xC20_3A7B);
+    }
     if want("random") {
         let n = if cfg!(miri) { 4 } else { opts.n(300, 4000) };
         let len = if cfg!(miri) { 200 } else { 2500 };
